@@ -202,7 +202,14 @@ static void run_pillars(int P, const vector<PConn> &C, const Cfg &c) {
                             bool hz = a.y0 == a.y1; double l2 = hz ? max(min(a.x0, a.x1), min(w.x0, w.x1)) : max(min(a.y0, a.y1), min(w.y0, w.y1)), h2 = hz ? min(max(a.x0, a.x1), max(w.x0, w.x1)) : min(max(a.y0, a.y1), max(w.y0, w.y1));
                             for (auto cr : cs) for (int q = 0; q < 2; q++) { const PolyLine &dr = cr->displayRoute(); const Point &ep = q ? dr.ps[dr.size() - 1] : dr.ps[0]; if (hz ? (fabs(ep.y - a.y0) < 1e-6 && ep.x >= l2 - 1e-6 && ep.x <= h2 + 1e-6) : (fabs(ep.x - a.x0) < 1e-6 && ep.y >= l2 - 1e-6 && ep.y <= h2 + 1e-6)) return true; } }
                         return false; };
-                    if (!((c.opts >> 3) & 1) && (epOn || ((held(i, s2) || s2.end) && (held(j, t) || t.end)))) kc2.push_back("shared_path_nudging_off_and_endpoint_on_shared_stretch");
+                    // ... or anywhere in the nudging region of the pair (the segments on this line connected to it through overlaps): one tied pair the solver cannot
+                    // order makes the whole region's separation problem fail, and then nothing in the region is moved (the all-or-nothing behaviour of KF-C10-3/4)
+                    bool regionHasTie = false;
+                    { struct RS { int ci; Seg g; }; vector<RS> reg, all2; for (int u = 0; u < k; u++) for (auto &w : segs(cs[u]->displayRoute())) { double d2; overlapLen(s2, w, d2); if (d2 < 1e-6) all2.push_back({u, w}); }   // every segment on the pair's line
+                      vector<char> in(all2.size(), 0); for (size_t q = 0; q < all2.size(); q++) { double d2; if (overlapLen(s2, all2[q].g, d2) > 1e-9 || overlapLen(t, all2[q].g, d2) > 1e-9) in[q] = 1; }
+                      for (bool ch = true; ch;) { ch = false; for (size_t q = 0; q < all2.size(); q++) if (!in[q]) for (size_t r2 = 0; r2 < all2.size(); r2++) if (in[r2]) { double d2; if (overlapLen(all2[q].g, all2[r2].g, d2) > 1e-9) { in[q] = 1; ch = true; break; } } }
+                      for (size_t q = 0; q < all2.size() && !regionHasTie; q++) if (in[q]) if (held(all2[q].ci, all2[q].g)) regionHasTie = true; }
+                    if (!((c.opts >> 3) & 1) && (epOn || ((held(i, s2) || s2.end) && (held(j, t) || t.end)) || regionHasTie)) kc2.push_back("shared_path_nudging_off_and_endpoint_on_shared_stretch");
                     ctx.violation("shared_path_not_separated", kc2, desc, all); }
                 else if (dist < c.nd / 10 - 1e-6 && s2.y0 == s2.y1 && fabs(min(s2.y0, t.y0) - 5 * S) < 3 * c.nd + 1e-6) ctx.violation("separated_less_than_nudging_distance", kc, desc, mcx::fmt("distance %g < %g:", dist, c.nd / 10) + all); }
         if (share) ctx.count("nontrivial");
@@ -224,7 +231,8 @@ int main(int argc, char **argv) {
     for (double nd : {4.0, 12.0}) for (unsigned o : {0u, 2u, 15u}) { phase(3, {nd, 2, o, 0, false}); phase(3, {nd, 1, o, 0, true}); }
     phase(4, {4, 1, 2, 0, false}); phase(4, {4, 2, 15, 0, false});
     for (unsigned o = 0; o < 16; o++) { pillar_phase(2, 2, {4, 0, o, 0, false}); pillar_phase(3, 3, {4, 0, o, 0, false}); }
-    if (T) for (double nd : {1.0, 12.0}) for (unsigned o = 0; o < 16; o++) { pillar_phase(3, 3, {nd, 0, o, 0, false}); pillar_phase(4, 3, {nd, 0, o, 0, false}); }
+    for (double nd : {1.0, 12.0}) for (unsigned o = 0; o < 16; o++) { pillar_phase(3, 3, {nd, 0, o, 0, false}); if (T) pillar_phase(4, 3, {nd, 0, o, 0, false}); }
+    if (T) for (unsigned o : {0u, 8u, 15u}) pillar_phase(3, 4, {4, 0, o, 0, false});
     if (T) { for (double nd : {1.0, 4.0, 12.0}) for (unsigned o = 0; o < 16; o++) { phase(3, {nd, 2, o, 0, false}); phase(3, {nd, 1, o, 0, true}); phase(2, {nd, 3, o, 0, false}); phase(2, {nd, 2, o, 0, true}); }
              for (double nd : {1.0, 4.0, 12.0}) for (unsigned o : {0u, 2u, 8u, 15u}) { phase(4, {nd, 1, o, 0, false}); phase(4, {nd, 2, o, 0, false}); phase(3, {nd, 3, o, 0, false}); phase(3, {nd, 2, o, 0, true}); } }
     return ctx.finish();
